@@ -1,4 +1,4 @@
-SPECIFICATION TSpec
+SPECIFICATION Spec
 CONSTANTS
   Types = {"get", "set", "result", "error", "absent", "garbage"}
   Payloads = {"none", "text", "unknown", "unknownQuery", "version", "discoInfo", "discoInfoNode", "discoItems", "time", "ping", "vcard", "roster", "rosterEmpty", "archiveChat", "archiveList", "archivePref", "archiveRetrieve", "block", "unblock", "blocklist", "private", "mamFin", "mamQuery", "mucAdmin", "mucOwner", "register", "rpc", "rpcBad", "ibbOpen", "ibbData", "ibbClose", "bytestreams", "si", "siBadProfile", "uploadRequest", "uploadSlot", "jingle", "pubsub", "pubsubOwner", "bind", "session", "carbonsEnable", "extdisco", "pushEnable", "mixJoin", "bob", "errorOnly", "version+unknown", "unknown+version", "unknown+vcard", "unknown+si"}
@@ -7,5 +7,6 @@ CONSTANTS
   IdKinds = {"fresh", "dup", "empty", "pending"}
   Peers = {"OwnBare", "OwnFullSelf", "OwnFullOther", "Domain", "Contact", "ContactBare"}
   MaxHist = 99
-INVARIANT Done
+VIEW PendView
+ACTION_CONSTRAINT EmitBehaviour
 CHECK_DEADLOCK FALSE
